@@ -137,11 +137,18 @@ func runC14(c *Ctx) {
 					}
 					return false, false
 				}), "ProvisionedBy == ProvisionTypeAPI")
-				gRun := kit.NewGates()
-				for _, gs := range kit.CallsTo(fn, Set(getStatus)) {
-					v := gs.Value()
-					gRun.AddEdges(kit.CmpEdges(fn, func(b *ssa.BinOp) (bool, bool) {
-						if b.X == ssa.Value(v) && isConstObj(b.Y, running) {
+				// not live: neither Running nor Recovering (F39) — a pipeline in its recovery back-off is about to be
+				// restarted from the very connectors/processors the call would change; lifecycle.Stop and
+				// provisioning.isRunningStatus treat both statuses as live. The test may sit in a predicate helper.
+				isStatus := func(v ssa.Value) bool {
+					return kit.DerivesFrom(v, func(x ssa.Value) bool {
+						cl, ok := x.(*ssa.Call)
+						return ok && kit.CalleeOf(cl.Common()) == getStatus
+					})
+				}
+				notStatus := func(obj types.Object) *kit.Gates {
+					return kit.NewGates().AddEdges(kit.CmpEdges(fn, func(b *ssa.BinOp) (bool, bool) {
+						if obj != nil && ((isStatus(b.X) && isConstObj(b.Y, obj)) || (isStatus(b.Y) && isConstObj(b.X, obj))) {
 							switch b.Op {
 							case token.EQL:
 								return true, false
@@ -150,8 +157,11 @@ func runC14(c *Ctx) {
 							}
 						}
 						return false, false
-					}), "GetStatus() != StatusRunning")
+					}), "")
 				}
+				gRun := notStatus(running)
+				gRec := notStatus(c.W.LookupObj(pPipe, "StatusRecovering"))
+				c.Dominated(r2, name+": mutations only while the pipeline is not recovering", asInstrs(muts), gRec, "the GetStatus() != StatusRecovering edge")
 				c.Dominated(r2, name+": mutations only for API-provisioned resources", asInstrs(muts), gAPI, "the ProvisionedBy == ProvisionTypeAPI edge")
 				c.Dominated(r2, name+": mutations only while the pipeline is not running", asInstrs(muts), gRun, "the GetStatus() != StatusRunning edge")
 			}
@@ -588,6 +598,8 @@ func c14R4(c *Ctx) {
 
 func c14R6(c *Ctx) {
 	c14R8(c)
+	c14R9(c)
+	c14R10(c)
 	c14R6As(c, c.R.Rule("R6", "K6 name index follows renames: pipeline.Service.Update frees the OLD name (read before the config is replaced) and reserves the new one", 2))
 }
 
@@ -822,6 +834,83 @@ func c14R8(c *Ctx) {
 			}
 		}
 		c.R.Check(nCreate == 1, r, t.orch+".Delete: one re-creating rollback step", c.Pos(fn.Pos()), "found", "expected exactly one rollback closure calling "+t.svc+".Create", true)
+	}
+}
+
+// c14R9: F40. The inverse steps of Create/Update go through the regular service methods, which stamp
+// UpdatedAt = time.Now(): a rolled-back call must put the timestamp back, or the instance differs from before the
+// call and from what a restarted server loads.
+func c14R9(c *Ctx) {
+	r := c.R.Rule("R9", "K6 a rolled-back call leaves the timestamps alone: every rollback closure of the orchestrators whose inverse step returns the live instance (Update, Add…, Remove…, the re-creating Create) assigns that instance's UpdatedAt from a value read before the forward step", 8)
+	p := c.W.Pkg(pOrch)
+	if p == nil {
+		return
+	}
+	appendM := c.W.ExtMethod(pRollback, "R", "Append")
+	for _, fn := range c.W.AllFuncs(c.W.SSA[p.Types]) {
+		if fn.Parent() != nil {
+			continue
+		}
+		for _, a := range kit.CallsTo(fn, Set(appendM)) {
+			mc, ok := a.Common().Args[len(a.Common().Args)-1].(*ssa.MakeClosure)
+			if !ok {
+				continue
+			}
+			lit := mc.Fn.(*ssa.Function)
+			for _, b := range lit.Blocks {
+				for _, in := range b.Instrs {
+					ci, ok := in.(ssa.CallInstruction)
+					if !ok {
+						continue
+					}
+					svc, m, ok := svcCall(ci)
+					if !ok || m == "Delete" || m == "Get" {
+						continue
+					}
+					if !(m == "Update" || m == "Create" || strings.HasPrefix(m, "Add") || strings.HasPrefix(m, "Remove")) {
+						continue
+					}
+					okTS := false
+					for _, st := range storesToFieldNamed(lit, "UpdatedAt") {
+						if kit.InstrDominates(ci, st) {
+							okTS = true
+						}
+					}
+					c.R.Check(okTS, r, kit.FuncKey(fn)+" rollback: "+svc+"."+m+" restores UpdatedAt", c.Pos(ci.Pos()), "UpdatedAt put back", "the rollback step "+svc+"."+m+" stamps UpdatedAt = time.Now() on the live instance and the closure does not put the previous value back: after a failed call (e.g. a failing commit) the instance's timestamp differs from before the call and from the store", true)
+				}
+			}
+		}
+	}
+}
+
+// c14R10: F38 (known finding). Persister.Persist snapshots the whole connector instance (config included) and writes
+// it up to a second later, outside any transaction. A service write or delete of the same connector in between is
+// overwritten / undone by that stale snapshot unless the service tells the persister.
+func c14R10(c *Ctx) {
+	r := c.R.Rule("R10", "K3 a queued persister snapshot cannot undo a later API change: connector.Service.Update and .Delete notify the persister (replace or drop the pending snapshot of that connector) after their own store write succeeded (AddProcessor/RemoveProcessor/SetState have the same shape but were not demonstrated and are not armed)", 2)
+	pt := c.W.LookupType(pConn, "Persister")
+	if pt == nil {
+		c.R.Unresolved(r, pConn+".Persister")
+		return
+	}
+	for _, m := range []string{"Update", "Delete"} {
+		fn := c.SSA(r, pConn, "(*Service)."+m)
+		if fn == nil {
+			continue
+		}
+		notified := false
+		for _, b := range fn.Blocks {
+			for _, in := range b.Instrs {
+				if ci, ok := in.(ssa.CallInstruction); ok {
+					if f := ci.Common().StaticCallee(); f != nil && f.Signature.Recv() != nil {
+						if n, ok := derefNamed(f.Signature.Recv().Type()); ok && n.Obj() == pt.Obj() {
+							notified = true
+						}
+					}
+				}
+			}
+		}
+		c.R.Check(notified, r, "connector.Service."+m+": the persister's pending snapshot is replaced/dropped", c.Pos(fn.Pos()), "persister notified", "connector.Service."+m+" writes (or deletes) the connector in the store without touching the persister: a snapshot of the same connector queued by an earlier Persist (e.g. Source.Open's lifecycle event followed by a failed plugin Open — nothing flushes it) is written up to a second later and overwrites the API change, or resurrects the deleted connector as an orphan, in the store; the restarted server loads the stale state", true)
 	}
 }
 
